@@ -335,6 +335,7 @@ fn run(ctx: &mut Ctx, which: Which) {
             }
         }
     }
+    run_expr_templates(ctx, which);
     if ctx.tier == Tier::Thorough {
         for a in TEMPLATES.iter().step_by(3) {
             for b in TEMPLATES.iter().step_by(2) {
@@ -349,6 +350,53 @@ fn run(ctx: &mut Ctx, which: Which) {
     }
 }
 
+pub const EXPR_TEMPLATES: &[&str] = &[
+    "RX({}) 0",
+    "DELAY 0 ({})",
+    "DELAY 0 {}",
+    "DELAY 0 \"f\" {}",
+    "SET-PHASE 0 \"f\" {}",
+    "SHIFT-FREQUENCY 0 1 \"f\" {}",
+    "PULSE 0 \"f\" w(a: {})",
+    "CAPTURE 0 \"f\" w(a: {}, b: 1) r",
+    "RAW-CAPTURE 0 \"f\" {} r",
+    "DEFFRAME 0 \"f\":\n    K: {}",
+    "DEFWAVEFORM w(%x, %y):\n    {}, 1",
+    "DEFGATE G(%x, %y) AS MATRIX:\n    {}, 0\n    0, 1",
+    "DEFCAL RX({}) 0:\n    NOP",
+    "DEFCAL X q:\n    DELAY q ({})\n    RX({}) q",
+    "DEFCIRCUIT C(%x, %y) q:\n    RX({}) q",
+    "CONTROLLED DAGGER G(1, {}) 0 1",
+];
+
+/// (d) every expression-bearing template x every expression tree of depth <= 1 (and a slice of depth 2)
+fn run_expr_templates(ctx: &mut Ctx, which: Which) {
+    let sp = crate::ex::Space::full();
+    for t in EXPR_TEMPLATES {
+        for e in &sp.all1 {
+            let mk = || t.replace("{}", &e.source());
+            if ctx.take(|| json!({"text": mk()})) {
+                visit(ctx, which, &mk(), 2, "expr-templates");
+            }
+        }
+    }
+    // depth 2: all trees in thorough; quick takes the first three templates over every 97th tree
+    let (nt, step) = if ctx.tier == Tier::Thorough { (4usize, 7usize) } else { (3, 97) };
+    let mut k = 0usize;
+    sp.depth2(|d| {
+        k += 1;
+        if k % step != 0 {
+            return;
+        }
+        for t in &EXPR_TEMPLATES[..nt] {
+            let mk = || t.replace("{}", &sp.build(&d).source());
+            if ctx.take(|| json!({"text": mk()})) {
+                visit(ctx, which, &mk(), 1, "expr-templates-depth2");
+            }
+        }
+    });
+}
+
 fn replay(which: Which, case: &Value) -> Vec<Viol> {
     let Some(s) = case["text"].as_str() else { return vec![] };
     match which {
@@ -361,7 +409,7 @@ pub static C01: PropDef = PropDef {
     id: "C01",
     level: "exploration",
     engine: "sweep",
-    rule: "(a) every string of length <= 4 (thorough 5) over a 28-character alphabet (digits, radix/exponent letters, signs, quote, backslash, #, %, @, brackets, whitespace, two non-ASCII) behind 6 operand-reaching prefixes, fed to all 5 from_str entry points; (b) every command (54) followed by <= 3 (4) tokens of a 44-token operand alphabet; (c) 118 grammar templates with every single-token deletion / replacement / insertion over 46 tokens, all template pairs (thorough: two-token replacements, triples). Worker processes: a panic is caught and located, an abort/stack overflow kills the worker and is attributed to the case. non-trivial = input accepted by at least one entry point (distinct by text)",
+    rule: "(a) every string of length <= 4 (thorough 5) over a 28-character alphabet (digits, radix/exponent letters, signs, quote, backslash, #, %, @, brackets, whitespace, two non-ASCII) behind 6 operand-reaching prefixes, fed to all 5 from_str entry points; (b) every command (54) followed by <= 3 (4) tokens of a 44-token operand alphabet; (c) 118 grammar templates with every single-token deletion / replacement / insertion over 46 tokens, all template pairs (thorough: two-token replacements, triples); (d) 16 expression-bearing templates x every expression tree of depth <= 1 (693) and a slice of depth 2. Worker processes: a panic is caught and located, an abort/stack overflow kills the worker and is attributed to the case. non-trivial = input accepted by at least one entry point (distinct by text)",
     assumptions: &["overflow checks and debug assertions are ON in the harness build so that integer overflow panics instead of wrapping", "inputs outside the alphabets (long programs, other Unicode) are not covered"],
     run: |ctx| run(ctx, Which::C01),
     replay: |c| replay(Which::C01, c),
@@ -371,7 +419,7 @@ pub static C02: PropDef = PropDef {
     id: "C02",
     level: "exploration",
     engine: "sweep",
-    rule: "the same three input spaces as C01; every text the parser accepts as a program is printed, parsed again, compared with == and printed again (byte-identical). non-trivial = accepted text (distinct by text)",
+    rule: "the same four input spaces as C01; every text the parser accepts as a program is printed, parsed again, compared with == and printed again (byte-identical). non-trivial = accepted text (distinct by text)",
     assumptions: &["equality is the library's own == on Program"],
     run: |ctx| run(ctx, Which::C02),
     replay: |c| replay(Which::C02, c),
